@@ -6,7 +6,7 @@ from typing import List, cast, Optional
 from ..ast import Statement, FunctionDef, JzOperation, RepeatOperation, \
     JumpOperation, IfThenOperation, ExitRepeat, UnaryOperation, \
     UnaryOperationNames, BinaryOperation, BinaryOperationNames, Node, \
-    ConstantValue, CallFunction, LoadListOperation
+    ConstantValue, CallFunction, LoadListOperation, WindowTellOperation
 
 #
 # Condition detection.
@@ -52,6 +52,11 @@ def condition_detect_in_statements(statements: List[Statement],
         if isinstance(st.code, RepeatOperation):
             ro = cast(RepeatOperation, st.code)
             condition_detect_in_statements(ro.statements_list, ro)
+
+        # The statements of a tell block have their own conditions
+        if isinstance(st.code, WindowTellOperation):
+            wo = cast(WindowTellOperation, st.code)
+            condition_detect_in_statements(wo.statements, repeat_op)
 
         if address is not None and st.position < address:
             previous_st = st
@@ -292,6 +297,10 @@ def loop_detect_in_statements(statements: List[Statement]):
             io = cast(IfThenOperation, st.code)
             loop_detect_in_statements(io.if_statements_list)
             loop_detect_in_statements(io.else_statements_list)
+    
+        if isinstance(st.code, WindowTellOperation):
+            wo = cast(WindowTellOperation, st.code)
+            loop_detect_in_statements(wo.statements)
     
         previous_st = st
         
